@@ -11,23 +11,27 @@ from .parser import parse
 from .utils import handle_messages, Path, PATH_STRING, read_file_or_stdin
 
 
-def load_program(text: Path, settings=Settings()) -> Program:
+def load_program(text: Path, settings=None) -> Program:
     """
     Parse the string into a program, type-check it, and preprocess it.
 
     The return value of this function is valid input to the VirtualMachine.run method.
     """
+    if settings is None:
+        settings = Settings()
     oplist, parse_messages = parse(text, path=PATH_STRING, settings=settings)
     program, check_messages = check(oplist, settings=settings)
     handle_messages(settings, parse_messages.extend(check_messages))
     return program
 
 
-def load_program_from_file(path: Path, settings=Settings()) -> Program:
+def load_program_from_file(path: Path, settings=None) -> Program:
     """
     Convenience function to a read a file and then invoke `load_program_from_str` on its
     contents.
     """
+    if settings is None:
+        settings = Settings()
     text = read_file_or_stdin(path, settings)
     oplist, parse_messages = parse(text, path=path, settings=settings)
     program, check_messages = check(oplist, settings=settings)
